@@ -4,6 +4,8 @@
 (*                     rec |-> [n, step, retN, lenN]] >>]                       *)
 (* rec is what reached the backend after that iteration: n = number of records  *)
 (* so far, step = the step argument, retN / lenN = N * SD * logged mean.        *)
+(* rec.others: the same four numbers <<n, step, retN, lenN>> for every OTHER     *)
+(* backend the callback was constructed with (it fans out to a sequence).       *)
 EXTENDS Integers, Sequences, FiniteSets, TLC, TLCExt, Json, IOUtils
 VARIABLES k, laststep, tid, l, rej
 vars == <<k, laststep, tid, l, rej>>
@@ -20,7 +22,9 @@ Clauses(ev) ==
    StepIsCumulativeStepsOverAllEnvs   |-> ev.rec.step = SumF(ev.stats, "step", NE),
    StepsStrictlyIncrease              |-> ev.rec.step > laststep,
    LoggedReturnIsMeanOverEnvs         |-> Abs(ev.rec.retN - SumF(ev.stats, "avgR", NE)) <= 1,
-   LoggedLengthIsMeanOverEnvs         |-> Abs(ev.rec.lenN - SumF(ev.stats, "avgL", NE)) <= 1]
+   LoggedLengthIsMeanOverEnvs         |-> Abs(ev.rec.lenN - SumF(ev.stats, "avgL", NE)) <= 1,
+   EveryBackendGetsEveryRecord        |-> \A i \in 1..Len(ev.rec.others) :
+                                            ev.rec.others[i] = <<ev.rec.n, ev.rec.step, ev.rec.retN, ev.rec.lenN>>]
 Failed(ev) == LET c == Clauses(ev) IN {n \in DOMAIN c : ~c[n]}
 TStep == /\ l >= 1 /\ l <= Len(Tr) /\ Failed(Tr[l]) = {}
          /\ k' = k + 1 /\ laststep' = Tr[l].rec.step /\ l' = l + 1 /\ UNCHANGED <<tid, rej>>
